@@ -595,8 +595,8 @@ where
     fn extend<T: IntoIterator<Item = (I, P)>>(&mut self, iter: T) {
         for (item, priority) in iter {
             if self.map.contains_key(&item) {
-                let (_, old_item, old_priority) = self.map.get_full_mut2(&item).unwrap();
-                *old_item = item;
+                // like `push`, keep the stored item and only update its priority
+                let old_priority = self.map.get_mut(&item).unwrap();
                 *old_priority = priority;
             } else {
                 self.map.insert(item, priority);
